@@ -39,6 +39,8 @@ structure Params where
 inductive RxErr where
   | eof | unexpectedEOF | recordOverflow | badVersion | badRecordMAC | unexpectedMessage
   | remoteAlert (code : Nat) | tooManyIgnored | noRenegotiation | internal
+  /- raised only while the handshake is still running (`Model.RecordRxHandshake`) -/
+  | decodeError | handshakeTooLong | handshakeFailure
   deriving Repr, DecidableEq
 
 /-- `c.rawInput` and the transport behind it -/
